@@ -81,7 +81,7 @@ def generate(rng, tier="quick"):
     kinds = ["tc_redefine", "tc_redefine_many", "tc_remove", "tc_remove_unknown", "extend_noop", "extend_kw",
              "extend_tc", "extend_kw_tc", "create_clone", "create_plain", "create_version", "create_default_types",
              "create_illegal", "extend_illegal", "instance_types", "fc_new", "fc_subset", "fc_subset_unknown",
-             "fc_checks", "cls_checks", "suspend", "resume", "set_meta", "mutate_meta_top", "tc_redefine_same_dict", "extend_version"]
+             "fc_checks", "cls_checks", "suspend", "resume", "set_meta", "mutate_meta_top", "tc_redefine_same_dict", "extend_version", "instance_future_ref", "instance_future_ref"]
     enabled = [k for k in kinds if rng.random() < 0.75] or kinds
     ops = []
     for i in range(n):
@@ -175,7 +175,7 @@ def execute(scn):
         return vec
 
     def probe_instance(v):
-        return {"errs": [run_errors(v, i) for i in (1, 1.0, "a", {"a": 1.5}, [True])],
+        return {"errs": [run_errors(v, i) for i in (1, 1.0, "a", {"a": 1.5}, [True], {"m": {"type": 12}}, {"m": {}})],
                 "is_type": [[n, [outcome(lambda: bool(v.is_type(x, n))) for x in (1, 1.0, True, "a")]]
                             for n in ("integer", "number", "string", "even")]}
 
@@ -377,7 +377,7 @@ def execute(scn):
                 P = parent["obj"]
                 fresh_id[0] += 1
                 meta = dict(P.META_SCHEMA)
-                meta["id"] = meta["$id"] = "urn:dsim:c16:meta-%d-%d" % (step, fresh_id[0])
+                meta["id"] = meta["$id"] = "urn:dsim:c16:meta-%d" % step
                 new = V.create(meta_schema=meta, validators=P.VALIDATORS, version="dsim c16 v%d" % step,
                                type_checker=P.TYPE_CHECKER, id_of=P.ID_OF)
                 add("class", new, step, k)
@@ -401,6 +401,16 @@ def execute(scn):
                 add("inst", v, step, "types=<" + parent["note"])
                 ok = True
                 shared_touch += 1
+            elif k == "instance_future_ref":
+                # a validator OBJECT whose schema refers to a metaschema id that only a LATER create(version=) of this
+                # history registers (or to none at all): what it resolves to is fixed when it is built
+                parent = pick("class", op["a"])
+                later = [j for j in range(step + 1, len(scn["ops"])) if scn["ops"][j]["op"] == "create_version"]
+                target = "urn:dsim:c16:meta-%d" % (later[op["b"] % len(later)] if later else 9999)
+                v = parent["obj"]({"properties": {"m": {"$ref": target}, "a": {"type": "number"}}, "type": "object"})
+                add("inst", v, step, "future-ref<" + parent["note"])
+                probe_count("instance_refers_to_id_registered_later" if later else "instance_refers_to_unregistered_id")
+                ok = True
             elif k == "fc_new":
                 f = FormatChecker()
                 ent = add("fc", f, step, "FormatChecker()")
